@@ -94,7 +94,7 @@ impl Prop for C16 {
         let words = |t: &str| t.chars().filter(|c| *c == 'x').count();
         let (max_words, max_words_clock) = match tier {
             Tier::Quick => (6, 4),
-            Tier::Thorough => (8, 6),
+            Tier::Thorough => (7, 5),
         };
         for o in &ts {
             for n in &ts {
@@ -107,7 +107,7 @@ impl Prop for C16 {
                         if dl == Dl::DefaultSymbolicClock && w > max_words_clock {
                             continue;
                         }
-                        if w == max_words && alg != Algorithm::Myers {
+                        if w == max_words && (alg != Algorithm::Myers || dl != Dl::NoDeadline) {
                             continue;
                         }
                         v.push(Shape { old: o.clone(), new: n.clone(), alg, dl });
@@ -139,7 +139,7 @@ impl Prop for C16 {
             let inl: Vec<similar::InlineChange<SymTxt>> = match s.dl {
                 Dl::NoDeadline => diff.iter_inline_changes_deadline(op, None).collect(),
                 Dl::Expired => {
-                    similar::verif_clock::install(Some(Box::new(|| true)));
+                    similar::verif_clock::install(Some(Box::new(|_| true)));
                     let r = diff.iter_inline_changes_deadline(op, any_instant()).collect();
                     similar::verif_clock::install(None);
                     r
@@ -234,7 +234,7 @@ impl Prop for C16 {
                 "similar::text::utils::upper_seq_ratio, similar::get_diff_ratio (0.5 gates, real f32)",
                 "capture_diff_deadline(Patience, MultiLookup, ..) with the H1 clock",
             ],
-            bounds: format!("(at most {} symbolic words in both texts together, {} under the symbolic clock) line texts of 0..={} lines per side built from the line shapes {:?} (words symbolic, separators space / punctuation), LF / CRLF / lone CR / unterminated last line, plus 1-against-4-line shapes for the line-count gate; x 3 algorithms x inline deadline {{None, already expired, built-in 500 ms under the symbolic clock}}", match tier { Tier::Quick => 6, Tier::Thorough => 8 }, match tier { Tier::Quick => 4, Tier::Thorough => 6 }, match tier { Tier::Quick => 2, Tier::Thorough => 3 }, match tier { Tier::Quick => &LINE_SHAPES[..3], Tier::Thorough => &LINE_SHAPES[..] }),
+            bounds: format!("(at most {} symbolic words in both texts together, {} under the symbolic clock) line texts of 0..={} lines per side built from the line shapes {:?} (words symbolic, separators space / punctuation), LF / CRLF / lone CR / unterminated last line, plus 1-against-4-line shapes for the line-count gate; x 3 algorithms x inline deadline {{None, already expired, built-in 500 ms under the symbolic clock}}", match tier { Tier::Quick => 6, Tier::Thorough => 7 }, match tier { Tier::Quick => 4, Tier::Thorough => 5 }, match tier { Tier::Quick => 2, Tier::Thorough => 3 }, match tier { Tier::Quick => &LINE_SHAPES[..3], Tier::Thorough => &LINE_SHAPES[..] }),
             outside: "the unicode word segmentation of real str / [u8] (third-party code; SymTxt's word tokenizer stands in); longer lines and texts".into(),
             assumptions: vec!["feature set text+inline+unicode+bytes; with `unicode` the inline code calls tokenize_unicode_words, which for SymTxt is the harness tokenizer (runs of ordinary characters, whitespace runs, single punctuation)".into()],
             required_witnesses: vec!["replace_ops_expanded", "replace_ops_with_emphasis", "replace_ops_below_a_ratio_gate_or_without_common_words", "paths_where_the_inline_deadline_fired", "paths_where_the_default_inline_deadline_was_consulted"],
